@@ -106,7 +106,7 @@ def run(inner_run, case, *, shared_bodyreq=True, before=None, after=None, step_c
         res['fired'].update(r['fired'])
         res['probes'].update(r['probes'])
         res['steps'] += r['steps']
-    res['fired']['twin:switch_with_two_in_flight'] += overlap[0]
+    res['fired']['twin:preempted_mid_request'] += overlap[0]
     res['probes']['twin_runs'] += 1
     res['probes']['twin_plan:' + case['plan']['mode']] += 1
     res['steps'] += s.step
